@@ -35,6 +35,19 @@ def blend_str(b):
     return f"{b.get('mode', 0)} {b.get('alpha', 0)} {int(b.get('clamp', False))} {b.get('source', 0)}"
 
 
+def patches_str(ps):
+    """`patches NP { REF X0 Y0 W H NT { X Y {MODE ALPHA CLAMP}*(1+nec) }*NT }*NP`; a patch is
+    {"ref", "x0", "y0", "w", "h", "targets": [{"x", "y", "blend": [(mode, alpha, clamp)]}]}"""
+    s = ["patches", len(ps)]
+    for p in ps:
+        s += [p["ref"], p["x0"], p["y0"], p["w"], p["h"], len(p["targets"])]
+        for t in p["targets"]:
+            s += [t["x"], t["y"]]
+            for (m, a, c) in t["blend"]:
+                s += [m, a, int(c)]
+    return " ".join(map(str, s))
+
+
 def frame_str(img, f):
     nec = len(img["ecs"])
     s = ["frame", f.get("ty", 0), f.get("ups", 1)]
@@ -57,6 +70,8 @@ def frame_str(img, f):
         s += ["ent", f["ent"]]
     if f.get("tocperm") is not None:
         s += ["tocperm", f["tocperm"]]
+    if f.get("patches"):
+        s += [patches_str(f["patches"])]
     s += ["chans", len(f["chans"])] + [chan_str(*c) for c in f["chans"]]
     return " ".join(map(str, s))
 
